@@ -48,8 +48,7 @@ Walk(d, ops, evs, k, w) ==
     LET part == op[2] + 1
         zz == IF op[4] # ANY THEN op[4] ELSE ZzOf(d, w.sel)
         pat == IF ch THEN BuildPart(d, part, op[3], zz, op[5]) ELSE Build(d, op[3], zz, op[5])
-        pre == IF ch /\ d.dir = "w" THEN (IF d.chain[part].len < 0 THEN "chained-write-implicit-length-" ELSE "chained-write-")
-               ELSE IF ch THEN "chained-read-" ELSE ""
+        pre == IF ch /\ d.dir = "w" THEN "chained-write-" ELSE IF ch THEN "chained-read-" ELSE ""
     IN IF e.rc # 0 THEN Walk(d, ops, evs, k + 1, Fail(w, "P", pre \o "build-fails"))
        ELSE IF Len(e.m) < 5 \/ e.m[5] # Len(e.m) - 5 THEN Walk(d, ops, evs, k + 1, Fail(w, "P", pre \o "build-nn-wrong"))
        ELSE IF SubSeq(e.m, 1, 4) # SubSeq(pat, 1, 4) THEN Walk(d, ops, evs, k + 1, Fail(w, "P", pre \o "build-header-wrong"))
@@ -107,7 +106,8 @@ Walk(d, ops, evs, k, w) ==
 Findings(r) ==
   LET d == r.c.def
       ld == r.load[LineOfDef(r)]
-  IN IF MustReject(d) THEN (IF ld = 0 THEN {} ELSE {<<"P", "oversize-definition-accepted">>})
+  IN IF IsChained(d) /\ ~ExplicitWriteLens(d) THEN {<<"M", "chained-write-with-omitted-length-is-outside-P">>}
+     ELSE IF MustReject(d) THEN (IF ld = 0 THEN {} ELSE {<<"P", "oversize-definition-accepted">>})
      ELSE IF ld = 0 THEN {<<"S", "loadable-definition-rejected">>}
      ELSE IF r.n # NMsgs(d) \/ \E k \in 1..r.n : ~SeenOk(d, k - 1, r.seen[k]) THEN {<<"P", "definition-differs-from-csv">>}
      ELSE Walk(d, r.c.ops, r.ev, 1,
